@@ -10,11 +10,13 @@
 package main
 
 import (
+	"bytes"
 	"encoding/json"
 	"flag"
 	"fmt"
 	"go/ast"
 	"go/parser"
+	"go/printer"
 	"go/token"
 	"os"
 	"path/filepath"
@@ -64,6 +66,13 @@ func findFunc(f *ast.File, recv, name string) *ast.FuncDecl {
 		}
 	}
 	return nil
+}
+
+// exprString prints an AST node as Go source.
+func exprString(e ast.Node) string {
+	var b bytes.Buffer
+	_ = printer.Fprint(&b, token.NewFileSet(), e)
+	return b.String()
 }
 
 func main() {
